@@ -4,6 +4,7 @@
     chalk-recursive's [RecursiveContext<K,V>], compared with the real generic engine on every
     run).  Proofs: Engine/RecInv.v, RecEval.v, RecSolve.v, RecTheorems.v; witnesses:
     Engine/RecWitness.v.  [repaired] is the engine with the three repairs (F3, F4, F15). *)
+From Chalk Require Import Engine.SlgForest.
 From Chalk Require Import Engine.RecTheorems Engine.AndOrEval.
 
 (** Every cache entry is the declarative (three-valued) value of its goal, after ANY history of
@@ -53,7 +54,7 @@ Qed.
     cache contents and answers are compared with it on every run) computes exactly the
     declarative value the theorems above talk about. *)
 Theorem andor_eval_correct : forall G n, sem G n (eval G n).
-Proof. exact eval_correct. Qed.
+Proof. exact AndOrEval.eval_correct. Qed.
 
 (** F15 on the faithful model of the UNCHANGED engine: a history changes the answer. *)
 Theorem rec_history_refuted :
@@ -71,3 +72,20 @@ Theorem rec_history_mixed_refuted :
     answer G (RecWitness.cfg repaired [] []) 100 (h ++ [g]) init_state = Some (OVal No) /\
     answer G (RecWitness.cfg repaired [] []) 100 [g] init_state = Some (OVal Yes).
 Proof. exact RecWitness.rec_history_mixed_refuted. Qed.
+
+(** SLG, table layer (Engine/SlgForest.v on top of Engine/SlgTable.v): across ANY history of
+    root calls on one solver -- each abstracted into the list of table operations its strands
+    perform (new table / [push_answer] / [mark_floundered]), cut short by a panic anywhere --
+    the forest only grows, every table keeps its index, a floundered table stays floundered,
+    the answers of a table that is not floundered afterwards extend what was stored before
+    (same answer indices), duplicate-detection keys are never forgotten, and every table keeps
+    its invariant.  (Which answers the strands find is not modelled: F7 lives there.) *)
+Theorem slg_tables_monotone : forall h F,
+  forest_ok F -> fmono F (run_history F h) /\ forest_ok (run_history F h).
+Proof. exact slg_tables_monotone_lemma. Qed.
+
+Theorem slg_answer_persists : forall F h i t j a,
+  forest_ok F -> nth_error F i = Some t -> nth_error (t_answers t) j = Some a ->
+  exists t', nth_error (run_history F h) i = Some t' /\
+             (t_floundered t' = false -> nth_error (t_answers t') j = Some a).
+Proof. exact slg_answer_persists_lemma. Qed.
